@@ -88,5 +88,32 @@ def register(claim, not_yet):
           'the reversed filters; the inner sum is the separable row pass. Padding/fold commutation and the synthesis side are decided by the exact correspondence of afb2d_nonsep/sfb2d_nonsep/'
           'afb2d/sfb2d (images smaller than the filter, odd filters, overlapping in-place folds) and by nonsep == separable on the real code.' + TIE + BRK,
           'Lean 4 factorisation theorems + exact correspondence + nonsep-vs-separable oracle', 'DESIGN.md §4 C19')
-    for p in ['C08', 'C09', 'C15', 'C16']:
-        not_yet[p] = 'check under construction in this round (framework built property by property); will be claimed when its Lean module and correspondence are in place'
+    claim('C08',
+          'Proved: every magnitude channel sqrt(re^2+im^2+b^2)-b (and the joint colour magnitude) is non-negative for b >= 0 over the reals; the first-order layer model returns 7C band-major '
+          'channels and raises exactly for odd sizes (which the module removes by edge extension); the second-order Function raises unless both sizes are multiples of 8. The values are a Float tier: '
+          'the executable Lean model of both layers (incl. _rot and colour variants) is compared with the real layers to 1e-9, and the real layers are compared with numpy dtcwt + formulas + pooling + '
+          'packing for five filter families. Known finding: ScatLayerj2 on H == 2 or W == 2.' + BRK,
+          'Lean 4 theorems (non-negativity over R, channel bookkeeping, raise conditions) + Float-tier model/code correspondence + numpy dtcwt oracle', 'DESIGN.md §4 C08',
+          'values are Float-tier correspondence/oracle-decided, not exact: partial.')
+    claim('C09',
+          'Proved over the reals: d/dt sqrt(t^2+c) = t/sqrt(t^2+c) for c > 0 (so d mag/d re = re/r, the factor the layers save), also at t = 0; with b > 0, r >= b > 0 and |re/r|,|im/r| <= 1, '
+          'hence the saved factors and the gradient are finite for every input including the zero image. The multivariate chain rule gluing these with the linear DTCWT/pooling adjoints is '
+          'assumed (standard mathematics), hence partial. The backward pass of the first-order layer is tied to the code by a Float-tier correspondence; both layers and SmoothMagFn (all '
+          'requires_grad subsets) are checked against central differences and for finiteness at zero on the real code.' + BRK,
+          'Lean 4 analytic theorems over R (derivative of the smoothed modulus, boundedness) + Float-tier backward correspondence + finite-difference oracle', 'DESIGN.md §4 C09',
+          'chain rule assumed; second-order backward is oracle-decided: partial.')
+    claim('C15',
+          'Proved (core Lean, no axioms beyond the standard three): the only process-wide state, COEFF_CACHE, satisfies "every cached entry equals the file table" under every history of calls and '
+          'under every interleaving of the atomic steps lookup / read / store of any number of threads, and under that invariant every call returns specOut(files, name, keys), a function of its '
+          'arguments only. The state machine is tied to coeffs._load_from_file by a trace correspondence. Purity of the transforms themselves is definitional in the functional model and is '
+          'checked on the real code by the trace oracle: byte-identical arguments, outputs bit-identical to isolated reference calls across random histories, dtypes, autograd on/off and 1..8 '
+          'threads. Thread scheduling inside PyTorch / the GIL cannot be exhibited by the model (partial).' + BRK,
+          'Lean 4 invariant + refinement theorems over histories and interleavings of the cache state machine + trace correspondence + history/thread oracle', 'DESIGN.md §4 C15',
+          'runtime scheduling is sampled, not enumerated: partial.')
+    claim('C16',
+          'Proved: on all 12 transform paths of the dtype abstract interpretation the result dtype equals the input dtype when the buffers match it, whatever the default dtype, and the call raises '
+          'exactly when they differ (tied to the code by an exhaustive 96-case grid correspondence); over the reals |sum a_j x_j| <= (sum |a_j|) max|x| and gains compose, which is the a-priori '
+          'bound the float tier uses. Measured on the real code: float32 vs float64 within 64*eps32*(gain*max|x|+bias) with the gain extracted from unit impulses, .float()/.double() conversions, '
+          'non-contiguous views vs contiguous copies. IEEE rounding and strides are runtime (partial).' + BRK,
+          'Lean 4 theorems (dtype propagation by cases, gain bound over R) + exhaustive dtype-grid correspondence + float32/stride oracle', 'DESIGN.md §4 C16',
+          'rounding and memory layout are measured, not proved: partial.')
